@@ -347,7 +347,7 @@ def c14(tier, seed, t0):
     agg = R.merge(res)
     bounds = dict(base_name="length 1..5 (quick) / 1..7 (thorough) over [a-z0-9_.], first character [a-z_], every character symbolic",
                   shapes=H.SHAPES, expected=H.EXPECT, file_types=[".h", ".c (no HEADER_PROT_* at all)"],
-                  outside="names starting with a digit or dot (their guard is not a C identifier); names longer than the bound; two mutations at once")
+                  outside="names starting with a digit or dot (their guard is not a C identifier); names longer than the bound; combinations of two guard defects other than the listed g34 / g14 / g24 / g344 shapes (a doubled guard whose first copy is itself defective)")
     return R.report("C14", H.HNAME, tier, seed, agg, t0, bounds, functions=PIPE_FUNCS + [
         "CheckPreprocessorProtection.run", "IsPreprocessorStatement.run", "PreProcessors.has_macro_defined", "File.__init__ (basename/splitext modelled on symbolic names)"],
         assumptions=["independent oracle for the expected symbol: ASCII upper-casing and '.'->'_' as z3 definitions over fresh variables, + '_H'"])
@@ -388,7 +388,7 @@ def c06(tier, seed, t0):
     agg2 = R.merge(res)
     agg = merge2(agg1, agg2)
     bounds = dict(pipeline=EDIT_BOUNDS,
-                  footprint="sys.getrecursionlimit(); every module-level list/dict/set of norminette.*; class attributes of classes defined "
+                  footprint="sys.getrecursionlimit(); every module-level list/dict/set of norminette.* and what every module-level iterator still holds (read from a deep copy); class attributes of classes defined "
                             "there (except Rule.context / Rule.name, which Rule.__new__ rewrites before any use); rules.primaries / rules.checks "
                             "order; Registry.dependencies (empty keys dropped)",
                   claim="inductive: processing ANY explored file (clean, erroneous, fatal, crashing) leaves the footprint unchanged, hence no "
